@@ -388,7 +388,9 @@ def run_case(ctx: Ctx, rng, stream, reqs, forced=None):
                 beyond = dec(F(mb) / F(99, 100) * (1 + MARGIN * 2), 33)
                 o4 = call(case, lambda m, t: m.borrow(t[tok], beyond))
                 reqs.append((dict(rep, sub="borrow-beyond"), o4, {"fn": "borrow", "tok": tok, "row": o4["rows"][tok], "amount": beyond}))
-                if o4["exc"] is None:
+                # the helper's head-room can itself be at the scale of the 35-digit rounding of the totals (debts within 1e-28 of the limit):
+                # then `limit x (1+2e-9)` is not beyond anything the arithmetic can see; as for max_withdraw, exact arithmetic must be decisive
+                if o4["exc"] is None and E0.total_debt + F(beyond) * F(obs["rows"][tok]["p"]) > E0.weighted_ltv * (1 + F(1, 10 ** 25)):
                     out.append(("max_borrow.beyond-accepted", f"borrow of {beyond} {tok} (limit x (1+2e-9)) accepted"))
                 outcome += ":" + (o2["cause"] or "ok") + ":" + (o4["cause"] or "ok")
     else:  # max_withdraw
